@@ -3,6 +3,7 @@
 \*               whatever followed METHODS in the same chunk (the pipelined request);
 \*   UdpMinLen - parseUDPHeader refused every datagram shorter than 10 bytes.
 \* Conforms holds because every divergence from the reference is explained by a fired deviation (`dev`);
+\* PlainJoin - (seeded change r3m2) SocksAdapter.handleRequest builds "host:port" by concatenation, so a name with ":" does not split.
 \* NoDev is deliberately NOT checked here (it fails: e.g. datagram 00 00 00 03 01 61 00 35).
 CONSTANTS
   Emit = FALSE
@@ -14,8 +15,9 @@ CONSTANTS
   Chunkings = {"all", "msg", "bytes", "split"}
   CutChunkings = {"all", "msg", "bytes", "split"}
   WithUdp = TRUE
+  PlainJoin = {"adapter", "adapterauth"}
 INIT Init
 NEXT Next
-INVARIANTS TypeOK Conforms NoReadPast ExpectFixed UdpRoundTrip DoneIsFinal
+INVARIANTS TypeOK Conforms NoReadPast ExpectFixed UdpRoundTrip DoneIsFinal HostPort
 PROPERTIES StepsAdvance
 CHECK_DEADLOCK TRUE
